@@ -169,40 +169,49 @@ fn run_unseen(job: &Job) {
     let i = mc::choose(m);
     let r = mc::choose(n);
     let which = mc::choose(N_UNSEEN);
+    let given: Vec<usize> = if rev { cats.iter().rev().copied().collect() } else { cats.clone() };
+    judge_unseen(be, &rows, &cats, &given, i, r, which, false);
+}
+
+/// Replace cell (r, cats[i]) by the `which`-th candidate and require `transform` to return an error.
+/// `many` = the case belongs to the many-category family (own input class and counters).
+fn judge_unseen(be: &'static dyn Backend, rows: &Rows, cats: &[usize], given: &[usize], i: usize, r: usize, which: usize, many: bool) {
+    let p = rows[0].len();
+    let m = cats.len();
     let col = cats[i];
-    let seen = first_appearance(&rows, col);
-    let other = if m >= 2 { first_appearance(&rows, cats[(i + 1) % m]) } else { Vec::new() };
+    let seen = first_appearance(rows, col);
+    let other = if m >= 2 { first_appearance(rows, cats[(i + 1) % m]) } else { Vec::new() };
     let v = quant(be, unseen_candidate(which, &seen, &other));
     if seen.iter().any(|s| (s - v).abs() < MARGIN_ZONE) {
         // the candidate is (after rounding to the element type) a seen code or within the library's
         // tolerance of one: not an unseen value
-        mc::count("unseen_candidate_is_seen");
+        mc::count(if many { "many_unseen_candidate_is_seen" } else { "unseen_candidate_is_seen" });
         return;
     }
     let invalid = v < 0.0 || v > 65535.0 || v.fract() != 0.0;
     if v.fract() != 0.0 && (v - v.round()).abs() < MARGIN_ZONE {
-        mc::count("unseen_candidate_in_margin_zone");
+        mc::count(if many { "many_unseen_candidate_in_margin_zone" } else { "unseen_candidate_in_margin_zone" });
         return;
     }
-    let class = if !invalid {
+    let base = if !invalid {
         "unseen-integer-code"
     } else if seen.contains(&sat_trunc_u16(v)) {
         "unseen-invalid-code-collapsing-onto-seen-code"
     } else {
         "unseen-invalid-code"
     };
-    let given: Vec<usize> = if rev { cats.iter().rev().copied().collect() } else { cats.clone() };
-    let enc = match guarded_fit(be, &rows, &given) {
+    let class: String = if many { format!("{}-many-categories", base) } else { base.to_string() };
+    let enc = match guarded_fit(be, rows, given) {
         FitOutcome::Ok(e) => e,
         _ => {
             // reported by the layout jobs (same matrices); nothing to transform here
-            mc::count("unseen_fit_failed");
+            mc::count(if many { "many_unseen_fit_failed" } else { "unseen_fit_failed" });
             return;
         }
     };
     let mut x2 = rows.clone();
     x2[r][col] = v;
-    let head = || format!("{} p={} categorical={:?} fitted on x={}; transform of x with x[{}][{}]={} (seen codes of that column: {:?})", be.name(), p, given, fmt_rows(&rows), r, col, v, seen);
+    let head = || format!("{} p={} categorical={:?} fitted on x={}; transform of x with x[{}][{}]={} (seen codes of that column: {:?})", be.name(), p, given, fmt_rows(rows), r, col, v, seen);
     match mc::guard(|| be.transform(&enc, &x2)) {
         Err(pi) => {
             mc::violation(format!("onehot.transform:{}:panic", class), format!("{}: panicked instead of returning an error: {}", head(), pi.brief()));
@@ -216,14 +225,22 @@ fn run_unseen(job: &Job) {
             mc::outcome(1);
         }
         Ok(Err(_)) => {
-            mc::count("unseen_rejected");
+            mc::count(if many { "many_unseen_rejected" } else { "unseen_rejected" });
             mc::outcome(0);
         }
     }
-    match class {
-        "unseen-integer-code" => mc::count("unseen_integer_cases"),
-        "unseen-invalid-code" => mc::count("unseen_invalid_cases"),
-        _ => mc::count("unseen_collapsing_cases"),
+    if !many {
+        match base {
+            "unseen-integer-code" => mc::count("unseen_integer_cases"),
+            "unseen-invalid-code" => mc::count("unseen_invalid_cases"),
+            _ => mc::count("unseen_collapsing_cases"),
+        }
+    } else {
+        match base {
+            "unseen-integer-code" => mc::count("many_unseen_integer_cases"),
+            "unseen-invalid-code" => mc::count("many_unseen_invalid_cases"),
+            _ => mc::count("many_unseen_collapsing_cases"),
+        }
     }
     mc::nontrivial();
     mc::describe(|| json!({"backend": be.name(), "fitted_on": rows, "categorical_columns_as_given": given, "transformed": x2, "changed_cell": [r, col], "unseen_value": v, "class": class}));
@@ -239,46 +256,55 @@ fn run_nonint(job: &Job) {
     let rev = m >= 2 && mc::choose(2) == 1;
     let cs = mc::choose(N_CODE_SCHEMES);
     let be = BACKENDS[mc::choose(nbe)];
-    let mut rows = layout_rows(p, &cats, &ks, cs, 0, seed);
+    let rows = layout_rows(p, &cats, &ks, cs, 0, seed);
     let n = rows.len();
     let i = mc::choose(m);
     let r = mc::choose(n);
     let delta = mc::pick(&NONINT_DELTAS);
+    let given: Vec<usize> = if rev { cats.iter().rev().copied().collect() } else { cats.clone() };
+    judge_nonint(be, rows, &cats, &given, i, r, delta, false);
+}
+
+/// Add `delta` to cell (r, cats[i]) and require `fit` to return an error.
+fn judge_nonint(be: &'static dyn Backend, mut rows: Rows, cats: &[usize], given: &[usize], i: usize, r: usize, delta: f64, many: bool) {
+    let p = rows[0].len();
     let col = cats[i];
     let v = quant(be, rows[r][col] + delta);
     let dist = (v - v.round()).abs();
     if dist == 0.0 {
-        mc::count("nonint_candidate_rounds_to_integer");
+        mc::count(if many { "many_nonint_candidate_rounds_to_integer" } else { "nonint_candidate_rounds_to_integer" });
         return;
     }
     rows[r][col] = v;
-    let given: Vec<usize> = if rev { cats.iter().rev().copied().collect() } else { cats.clone() };
-    let res = guarded_fit(be, &rows, &given);
+    let res = guarded_fit(be, &rows, given);
     if dist < MARGIN_ZONE {
         // within (1.5x) the library's documented ERROR_MARGIN of an integer: observed, not judged
-        match res {
-            FitOutcome::Ok(_) => mc::count("near_integer_within_margin_accepted_by_fit"),
-            _ => mc::count("near_integer_within_margin_rejected_by_fit"),
+        match (res, many) {
+            (FitOutcome::Ok(_), false) => mc::count("near_integer_within_margin_accepted_by_fit"),
+            (_, false) => mc::count("near_integer_within_margin_rejected_by_fit"),
+            (FitOutcome::Ok(_), true) => mc::count("many_near_integer_within_margin_accepted_by_fit"),
+            (_, true) => mc::count("many_near_integer_within_margin_rejected_by_fit"),
         }
         return;
     }
+    let sfx = if many { "-many-categories" } else { "" };
     let head = || format!("{} p={} categorical={:?} x={} (x[{}][{}]={} is not an integer)", be.name(), p, given, fmt_rows(&rows), r, col, v);
     match res {
         FitOutcome::Panic(pi) => {
-            mc::violation("onehot.fit:non-integer-value:panic", format!("{}: fit panicked instead of returning an error: {}", head(), pi.brief()));
+            mc::violation(format!("onehot.fit:non-integer-value{}:panic", sfx), format!("{}: fit panicked instead of returning an error: {}", head(), pi.brief()));
             mc::outcome(2);
         }
         FitOutcome::Ok(_) => {
-            mc::violation("onehot.fit:non-integer-value:accepted", format!("{}: fit returned Ok instead of an error", head()));
+            mc::violation(format!("onehot.fit:non-integer-value{}:accepted", sfx), format!("{}: fit returned Ok instead of an error", head()));
             mc::outcome(1);
         }
         FitOutcome::Err(_) => {
-            mc::count("nonint_rejected");
+            mc::count(if many { "many_nonint_rejected" } else { "nonint_rejected" });
             mc::outcome(0);
         }
     }
     if v < 0.0 {
-        mc::count("nonint_negative");
+        mc::count(if many { "many_nonint_negative" } else { "nonint_negative" });
     }
     mc::nontrivial();
     mc::describe(|| json!({"backend": be.name(), "x": rows, "categorical_columns_as_given": given, "non_integer_cell": [r, col], "value": v}));
